@@ -23,16 +23,33 @@ ECO_TABLES = set(lc.COUNT_IDS) | {"ClassCreatorAllowlist", "ClassFee", "BasketFe
 
 # ---------------------------------------------------------------- state reconstruction
 
+# primary keys of the 31 tables (harness/chain TableInfo.primary_key); used when no trace["tables"] is at hand
+DEFAULT_PK = {'AllowedBridgeChain': ['chain_name'], 'AllowedClassCreator': ['address'], 'AllowedDenom': ['bank_denom'],
+              'Basket': ['id'], 'BasketBalance': ['basket_id', 'batch_denom'], 'BasketClass': ['basket_id', 'class_id'],
+              'BasketFee': [], 'Batch': ['key'], 'BatchBalance': ['address', 'batch_key'], 'BatchContract': ['batch_key'],
+              'BatchSequence': ['project_key'], 'BatchSupply': ['batch_key'], 'Class': ['key'], 'ClassCreatorAllowlist': [],
+              'ClassFee': [], 'ClassIssuer': ['class_key', 'issuer'], 'ClassSequence': ['credit_type_abbrev'],
+              'CreditType': ['abbreviation'], 'DataAnchor': ['id'], 'DataAttestor': ['id', 'attestor'], 'DataID': ['id'],
+              'DataResolver': ['id', 'resolver_id'], 'FeeParams': [], 'Market': ['id'],
+              'OriginTxIndex': ['class_key', 'id', 'source'], 'Project': ['key'],
+              'ProjectEnrollment': ['project_key', 'class_key'], 'ProjectFee': [], 'ProjectSequence': ['class_key'],
+              'Resolver': ['id'], 'SellOrder': ['id']}
+DEFAULT_INFOS = {t: {"name": t, "primary_key": pk} for t, pk in DEFAULT_PK.items()}
+
+
 def pk_of(info, row):
     return tuple(json.dumps(row.get(f), sort_keys=True) for f in info["primary_key"])
 
 
-def apply_diff(state, diff, infos):
+def apply_diff(state, diff, infos=None):
     """Applies a StateDiff (harness/chain README, section StateDiff) to a State in place.
+    infos: table name -> TableInfo (trace["tables"]); defaults to the primary keys in DEFAULT_PK.
     tables: deletes are primary-key projections, puts are full rows (insert or update);
     sequences: {"table","old","new"}; balances: {"account","denom","old","new"}; supply: {"denom","old","new"}."""
     if not diff:
         return state
+    if infos is None:
+        infos = DEFAULT_INFOS
     for table, d in (diff.get("tables") or {}).items():
         rows = state["tables"].setdefault(table, [])
         info = infos[table]
